@@ -386,6 +386,9 @@ def do_decimal(rec, conv):
 UTC = datetime.timezone.utc
 
 
+IB_ZONES = [("EST", -5), ("PST", -8), ("EDT", -4), ("CST", -6), ("EST", -5), ("MDT", -6), ("MST", -7), ("PDT", -7), ("CDT", -5)]
+
+
 def do_datetime(rec, conv):
     from vf.universe import SeasonTZ
 
@@ -404,6 +407,14 @@ def do_datetime(rec, conv):
                 "20240229235959.999[-3.30:NST]", "20240229235959[-9.30]", "09991231235959.999[-5:EST]", "01000615"):
         ms = R.read_datetime(txt)
         read_canon(rec, conv, txt, ms, eq=lambda a, e: isinstance(a, datetime.datetime) and a.utcoffset() == datetime.timedelta(0) and R.pydt_to_us(a) == e * 1000)
+    # the form one broker sends, "[-:TZ]": the offset is that of the named US zone; several names in a row on this one
+    # converter, then names that denote no zone
+    for name, hours in IB_ZONES:
+        txt = f"20240229235959.999[-:{name}]"
+        ms = R.read_datetime(f"20240229235959.999[{hours}:{name}]")
+        read_canon(rec, conv, txt, ms, eq=lambda a, e: isinstance(a, datetime.datetime) and a.utcoffset() == datetime.timedelta(0) and R.pydt_to_us(a) == e * 1000)
+    for bad in ("20240229235959.999[-:XYZ]", "20240229235959.999[-:]", "20240229235959.999[-:est]"):
+        must_reject(rec, conv.convert, bad, "convert", "non-value-accepted")
     for bad in ("abc", "1.2.3", "--1", "YN", "2024022", "20241301", "20240230", "20240229240000", "2024-02-29"):
         must_reject(rec, conv.convert, bad, "convert", "non-value-accepted")
     for bad in ("20240229", 20240229, 1.5, D(1), datetime.datetime(2024, 1, 1, 12, 0), object()):
@@ -421,6 +432,11 @@ def do_time(rec, conv):
     for txt in ("235959", "235959.999", "000001.001[-5:EST]", "115959[+5.30]", "000000.000[-0.30]", "235959.001[+14]", "033045.020[+5.30:IST]", "000000[+1:CET]", "120000.000[-3.30]"):
         ms = R.read_time(txt)
         read_canon(rec, conv, txt, ms, eq=lambda a, e: isinstance(a, datetime.time) and a.utcoffset() == datetime.timedelta(0) and R.pytime_to_us(a) == e * 1000)
+    for name, hours in IB_ZONES:
+        ms = R.read_time(f"120000.000[{hours}:{name}]")
+        read_canon(rec, conv, f"120000.000[-:{name}]", ms, eq=lambda a, e: isinstance(a, datetime.time) and a.utcoffset() == datetime.timedelta(0) and R.pytime_to_us(a) == e * 1000)
+    for bad in ("120000.000[-:XYZ]", "120000.000[-:]"):
+        must_reject(rec, conv.convert, bad, "convert", "non-value-accepted")
     for bad in ("abc", "1.2.3", "--1", "YN", "23595", "240000", "236000", "12:00:00"):
         must_reject(rec, conv.convert, bad, "convert", "non-value-accepted")
     for bad in ("235959", 235959, 1.5, datetime.time(12, 0), object()):
